@@ -2,7 +2,7 @@
 EXTENDS Variables, Json, IOUtils, SequencesExt
 AllWrappers == {"T", "T!", "[T]", "[T]!", "[T!]", "[T!]!", "[[T!]]"}
 AllKinds == {"int", "enum", "ser", "native", "raw", "input"}
-AllPositions == {"var", "field", "nested", "recursive", "sub_var", "sub_field", "result", "result_nested", "result_fragment"}
+AllPositions == {"var", "field", "nested", "recursive", "sub_var", "sub_field", "result", "result_nested", "result_fragment", "result_union"}
 AllStates == {"omitted", "none", "val", "val_nullitem", "empty", "val_falsy", "val_nullfirst"}
 Intended0 == {}
 AsBuilt == {"toplevel_serialize_whole"}
